@@ -150,7 +150,7 @@ impl Check for C16 {
     }
     fn cases(&self, tier: Tier) -> u64 {
         match tier {
-            Tier::Quick => 300,
+            Tier::Quick => 900,
             Tier::Thorough => 3000,
         }
     }
